@@ -34,10 +34,10 @@ static char PAY[MAXMSG];                  /* plain payload cells (identity) */
 
 /* pending deliveries of a module (mailbox + accumulated batch), in send order */
 #define MAXMB 24
-typedef struct { int msg; int optional; unsigned pats; int kind; int key; } pend_t;   /* kind: 0 ps message, 1 fd readiness, 2 timer expiry */
+typedef struct { int msg; int optional; unsigned pats; int kind; int key; int prio; } pend_t;   /* prio: priority of the matching subscription when sent (-1: several candidates) */   /* kind: 0 ps message, 1 fd readiness, 2 timer expiry */
 
 /* user-held / stashed event records */
-typedef struct { const m_evt_t *p; int kind, msg, key; const void *ud; int refs; } evrec_t;
+typedef struct { const m_evt_t *p; int kind, msg, key; const void *ud; int refs; int prio; } evrec_t;
 #define MAXEV 32
 
 /* non-ps sources of a module */
@@ -121,7 +121,9 @@ static int new_msg(int sender, int topic, int sys, int autofree) {
 static void mb_append(int s, int msg, int optional, unsigned pats) {
     mod_t *m = &MD[s];
     if (m->nmb >= MAXMB) vfail("INTERNAL", "INTERNAL", "monitor mailbox overflow");
-    m->mb[m->nmb++] = (pend_t){ msg, optional, pats, 0, 0 };
+    int prio = PR_NORM, np = 0;
+    for (int q = 0; q < NPAT; q++) if (pats & (1u << q)) { prio = m->sub[q].prio; np++; }
+    m->mb[m->nmb++] = (pend_t){ msg, optional, pats, 0, 0, np > 1 ? -1 : prio };
     if (!optional) MSG[msg].owed++;
 }
 static void mb_remove(int s, int idx) {
